@@ -3,5 +3,6 @@ EXTENDS Prelude
 ASSUME LoopRefinesSpec
 ASSUME Laws
 ASSUME JoinLaws
-ASSUME PrintT(<<"cases", Cardinality(CasesVec) + Cardinality(CasesScalar) + Cardinality(CasesStr)>>)
+ASSUME TrimLaws
+ASSUME PrintT(<<"cases", Cardinality(CasesVec) + Cardinality(CasesScalar) + Cardinality(CasesStr) + Cardinality(CasesChr) + Cardinality(CasesMisc)>>)
 =============================================================================
